@@ -133,7 +133,8 @@ def run(ctx):
             cases.append({"id": "g%d" % n, "kind": "c18_group",
                           "abs": {"kind": "group", "lst": lst, "attrs": attrs},
                           "args": {"lst": lst, "attrs": attrs, "nested": nested, "container": cont,
-                                   "as_list": ctx.rng.random() < 0.5}})
+                                   "as_list": ctx.rng.random() < 0.5,
+                                   "how": ctx.rng.choice(["method", "method", "into", "function", "plss"])}})
     # entry paths: every path x every single kind, then mixtures
     k = 0
     for target in ("TractList", "TRSList"):
